@@ -315,7 +315,12 @@ def resolve(d, op, st_):
     return ['AddColumn', t, name, {'type': ('RefList:' if op.get('list') else 'Ref:') + tgt, 'isFormula': False}]
   if k == 'rmtable':
     t = _pick(tables, op.get('t', 0))
-    return ['RemoveTable', t] if t else None
+    if not t: return None
+    # RefList columns showing a column of the removed table are converted by Node (call_external), which does
+    # not exist here; like test_twoway_refs.py we drop their visible/display columns first.
+    pre = [['ModifyColumn', c['table'], c['col'], {'visibleCol': 0, 'displayCol': 0}]
+           for c in cols if c['target'] == t and c['kind'] == 'RefList' and c['table'] != t]
+    return pre + [['RemoveTable', t]]
   if k == 'rename':
     c = _pick(_order(cols), op.get('c', 0))
     if not c: return None
@@ -394,6 +399,25 @@ def is_meta_link(uas):
              and 'reverseCol' in u[3] and u[3]['reverseCol'] not in (0, None, [0]) for u in uas)
 
 
+def bundle_class(uas):
+  """Coarse kind of the mechanism a bundle exercises (for signatures)."""
+  kinds = set(u[0] for u in uas)
+  meta = [u for u in uas if len(u) > 1 and isinstance(u[1], str) and u[1].startswith('_grist_')]
+  if 'ApplyUndoActions' in kinds:
+    return 'undo'
+  if 'AddReverseColumn' in kinds or any('reverseCol' in u[3] for u in meta if len(u) > 3 and isinstance(u[3], dict)):
+    return 'link-change'
+  if 'ModifyColumn' in kinds or any('type' in u[3] for u in meta if len(u) > 3 and isinstance(u[3], dict)):
+    return 'type-switch'
+  if kinds & set(['RemoveRecord', 'BulkRemoveRecord']):
+    return 'row-removal'
+  if kinds & set(['AddRecord', 'BulkAddRecord']):
+    return 'row-add'
+  if kinds & set(['UpdateRecord', 'BulkUpdateRecord']):
+    return 'cell-update'
+  return 'schema-change'
+
+
 def exc_kind(e):
   return type(e).__name__
 
@@ -421,7 +445,8 @@ def step(d, out, st_, uas):
   if not r.ok:
     out.cls('rejected')
     unique = exc_kind(r.error) == 'UniqueReferenceError'
-    out.cls('rejected:UniqueReferenceError' if unique else 'rejected:other')
+    out.cls('rejected:UniqueReferenceError' if unique else 'rejected:other:%s:%s' % (
+      exc_kind(r.error), '+'.join(sorted(set(u[0] for u in uas)))))
     if unique and pairs_before:
       out.cls('rejected:UniqueReferenceError:' + '+'.join(sorted(set(u[0] for u in uas))))
     if expect is True:
@@ -448,6 +473,9 @@ def step(d, out, st_, uas):
     return False
   # success
   out.cls('accepted')
+  if pairs_before:
+    for u in uas:
+      out.cls('ok-with-pair:' + u[0] + (':meta' if len(u) > 1 and isinstance(u[1], str) and u[1].startswith('_grist_') else ''))
   if is_undo:
     st_['undo'].pop()
     out.cls('undo-applied')
@@ -477,12 +505,10 @@ def step(d, out, st_, uas):
     bad = asymmetries(d, c, r_)
     if bad:
       key = (c['ref'], r_['ref'])
-      kinds = '+'.join(sorted(set(u[0] + (':meta' if u[1].startswith('_grist_') else '') for u in uas
-                                  if len(u) > 1 and isinstance(u[1], str)))) or uas[0][0]
       if pre_asym.get(key):
         sig = 'C11:asymmetric:reverseCol-set-on-unreconciled-columns'
       else:
-        sig = 'C11:asymmetric:after:' + kinds
+        sig = 'C11:asymmetric:after-' + bundle_class(uas)
       out.fail(sig,
                'after %r the linked columns %s.%s (%s) and %s.%s (%s) are not symmetric: [a, b, b in c[a], a in r[b]] = %r' % (
                  uas, c['table'], c['col'], c['kind'], r_['table'], r_['col'], r_['kind'], bad[:6]),
@@ -520,7 +546,9 @@ def run_case(case):
           if op.get('k') == 'undo' and uas:
             continue                      # undo travels alone
           ua = resolve(d, op, st_)
-          if ua is not None:
+          if ua is not None and ua and isinstance(ua[0], list):
+            uas.extend(ua)
+          elif ua is not None:
             uas.append(ua)
             if ua[0] == 'ApplyUndoActions':
               uas = [ua]
@@ -559,8 +587,16 @@ def _op():
   rmtable = st.fixed_dictionaries({'k': st.just('rmtable'), 't': st.integers(0, 1)})
   rename = st.fixed_dictionaries({'k': st.just('rename'), 'c': st.integers(0, 3), 'name': st.integers(0, 2)})
   undo = st.fixed_dictionaries({'k': st.just('undo')})
-  return st.one_of(upd, upd, upd, upd, upd, upd, add, add, rm, rm, modtype, modtype, unlink, link, link, addcol,
-                   undo, undo, st.one_of(rmtable, rename, rmtable, unlink))
+  table = {'upd': upd, 'add': add, 'rm': rm, 'modtype': modtype, 'unlink': unlink, 'link': link, 'addcol': addcol,
+           'undo': undo, 'rmtable': rmtable, 'rename': rename}
+  kinds = []
+  for k in sorted(WEIGHTS):
+    kinds.extend([k] * WEIGHTS[k])
+  return st.sampled_from(kinds).flatmap(lambda k: table[k])
+
+
+WEIGHTS = {'upd': 30, 'add': 8, 'rm': 8, 'modtype': 8, 'unlink': 3, 'link': 5, 'addcol': 2, 'undo': 8,
+           'rmtable': 1, 'rename': 1}
 
 
 def strategy(tier):
